@@ -32,7 +32,7 @@ ASSUMPTIONS = [
     "difference there proves inequality, agreement does not prove equality and is then not used to demand ==)",
 ]
 MIN_MONITORS = {"pair": 20000, "eq-implies-hash": 20000, "eq-implies-same": 3000, "equal-by-construction": 6000,
-                "accessor-mutation": 15000, "pickle": 6000, "bls-pair": 6000, "bls-equal-sets": 1500, "expr-pair": 4000}
+                "accessor-mutation": 15000, "pickle": 6000, "bls-pair": 4500, "bls-equal-sets": 1500, "expr-pair": 4000}
 THOROUGH_MIN_SCALE = 8
 
 
